@@ -319,6 +319,11 @@ fn random_case(rng: &mut Rng, pts: &[i128]) -> IntCase {
     let (b, tb) = pick_iv(rng);
     let ext = rng.chance(1, 5);
     let e = if ext { ", ..." } else { "" };
+    if rng.chance(1, 8) {
+        // marker written after a parenthesised element set: the whole constraint is extensible
+        let text = format!("(({ta}), ...)");
+        return IntCase { key: text.clone(), text, permitted: IvSet::single(a), extensible: true, ext_ambiguous: false };
+    }
     let (text, set, ext_amb) = match rng.below(3) {
         0 => (format!("({ta} | {tb}{e})"), IvSet::single(a).union(&IvSet::single(b)), false),
         1 => (format!("({ta} ^ {tb}{e})"), IvSet::single(a).intersect(&IvSet::single(b)), false),
